@@ -42,7 +42,7 @@ def check_sizes(ctx, t, what, obj, write, build, ref_len=None):
 
 
 def run_block(ctx, case):
-    spec, hints = case["spec"], case.get("hints")
+    spec, hints = specs.expand_case(case)
     t = spec["t"]
     ok, blk = ctx.must(lambda: specs.build(spec, hints), f"{t}/build", f"constructing a valid {t} block")
     if ok:
@@ -335,6 +335,9 @@ SUBS = [
         rule="blocks with >= 2 items edited through the public interface (remove / add items): declared = written = consumed after every edit"),
     Sub("long-tracks", run_block, strategy=specs.long_block_case, budget=(12, 300), shards=(6, 16),
         rule="blocks with 1-2 tracks of 257 .. 131079 frames, boundary-aligned gaps, thousands of runs, all input dtypes: declared = written = consumed = reference size"),
+    Sub("boundary-counts", run_block, kind="enum", enumerate=specs.enum_boundary, shards=(8, 16),
+        rule="78 fixed blocks whose counts sit on 2^8 / 2^15 / 2^16 (values per event, items per block, runs per track, frames per track, points per 2D cell, links); "
+             "finite, enumerated", nontrivial_required=False),
     Sub("capture", run_capture, kind="enum", enumerate=enum_capture, shards=(1, 1),
         rule="the 8 blocks of the BTS-recorded capture vs. the sizes in its jump table (finite, enumerated)"),
     Sub("container", run_container, strategy=container_strategy, budget=(150, 4000), shards=(2, 16),
